@@ -1588,7 +1588,9 @@ func (w *choiceWorker) finishChain(c *chain) {
 // Driver with termination watchdog
 // ---------------------------------------------------------------------
 
-func runChoices(r *ev.Run) {
+// runChoices returns false if a case hung: worker goroutines are then still
+// spinning inside the code under test and the rest of the process is starved.
+func runChoices(r *ev.Run) bool {
 	r.Assume("choices: the scheduler keeps the largest size class of a platform queue fixed (predeclared) and only adds/removes smaller ones between Select and Succeeded; size class lists are strictly increasing and do not contain 0 unless they have one element (RegisterPredeclaredPlatformQueue enforces both)")
 	r.Assume("choices: calculator parameters are sane configuration (minimum timeout >= 0, multiplier >= 1, convergence error > 0); only stored statistics, size class lists, action timeouts and outcome sequences are hostile")
 	r.Assume("choices: stored statistics are wire-expressible (every generated message is marshalled and unmarshalled before use)")
@@ -1633,7 +1635,7 @@ func runChoices(r *ev.Run) {
 		select {
 		case <-done:
 			declareChoiceFloors(r)
-			return
+			return true
 		case <-tick.C:
 			for _, w := range workers {
 				ci := w.curCase.Load()
@@ -1650,7 +1652,7 @@ func runChoices(r *ev.Run) {
 				} else {
 					r.Inconclusive("choices: case %d did not finish within the watchdog and the goroutine dumps do not show a /repo function spinning", ci)
 				}
-				return
+				return false
 			}
 		}
 	}
